@@ -139,7 +139,8 @@ func getTLSWorld(t *testing.T, rc *RunCtx) *tlsWorld {
 
 var tlsCredKinds = []string{"plaintext", "tls-no-client-cert", "self-signed-permitted-name", "other-authority-permitted-name", "host-trust-store-authority-permitted-name",
 	"intermediate-of-configured-authority", "valid-unpermitted-client", "valid-client-test01", "valid-client-test02", "valid-peer-signer-test02",
-	"valid-client-test02-followed-by-forged-client-test01", "valid-unpermitted-client-followed-by-forged-client-test01"}
+	"valid-client-test02-followed-by-forged-client-test01", "valid-unpermitted-client-followed-by-forged-client-test01",
+	"self-signed-permitted-name-followed-by-genuine-client-certificate"}
 
 func (w *tlsWorld) dial(srv *tlsServer, cred string) (*grpc.ClientConn, error) {
 	pool := x509.NewCertPool()
@@ -177,6 +178,12 @@ func (w *tlsWorld) dial(srv *tlsServer, cred string) (*grpc.ClientConn, error) {
 		cfg.Certificates = []tls.Certificate{pair(resources.ClientTest02Crt, resources.ClientTest02Key)}
 	case "valid-peer-signer-test02":
 		cfg.Certificates = []tls.Certificate{pair(resources.SignerTest02Crt, resources.SignerTest02Key)}
+	case "self-signed-permitted-name-followed-by-genuine-client-certificate":
+		// The caller proves possession of a self-made key only; a genuine client's PUBLIC certificate rides along.
+		forged := mkLeaf("client-test01", nil, nil, false)
+		genuine := pair(resources.ClientTest02Crt, resources.ClientTest02Key)
+		forged.Certificate = append(forged.Certificate, genuine.Certificate[0])
+		cfg.Certificates = []tls.Certificate{forged}
 	case "valid-client-test02-followed-by-forged-client-test01", "valid-unpermitted-client-followed-by-forged-client-test01":
 		// A genuine certificate with a self-made extra certificate bearing a permitted name appended to the chain.
 		c := pair(resources.ClientTest02Crt, resources.ClientTest02Key)
